@@ -211,3 +211,1090 @@ Proof.
     + apply in_map_iff in H2; destruct H2 as (n & K & Hn); rewrite <- K; apply in_map, E5, Hn.
   - intros n' Hn'; destruct (E4 n' Hn'); auto.
 Qed.
+
+(** * Edge loops: the invariant of one phase started in [x0]; [ks] lists the keys wanted so far *)
+
+Record pinv (m x0 : tsg) (ks : list (key * key)) (x : tsg) : Prop := {
+  pi_x : xinv m x;
+  pi_e1 : forall e', In e' (tedges x) -> In e' (tedges x0) \/ In (ekey e') ks;
+  pi_e2 : forall k, In k ks -> In k (map ekey (tedges x));
+  pi_e0 : forall e', In e' (tedges x0) -> In e' (tedges x);
+  pi_n1 : forall n', In n' (tnodes x) ->
+      In n' (tnodes x0) \/
+      exists e', In e' (tedges x) /\ (nkey n' = esrc e' \/ nkey n' = edst e');
+  pi_n0 : forall n', In n' (tnodes x0) -> In n' (tnodes x)
+}.
+
+Lemma pinv_init m x0 : xinv m x0 -> pinv m x0 [] x0.
+Proof. intros X; constructor; auto. intros k []. Qed.
+
+Lemma pinv_skip m x0 ks x k :
+  pinv m x0 ks x -> In k (map ekey (tedges x)) -> pinv m x0 (ks ++ [k]) x.
+Proof.
+  intros [P1 P2 P3 P4 P5 P6] Hk; constructor; auto.
+  - intros e' He'; destruct (P2 e' He'); [auto|right; apply in_or_app; auto].
+  - intros k' Hk'; apply in_app_iff in Hk'; simpl in Hk'; destruct Hk' as [H|[<-|[]]]; auto.
+Qed.
+
+Lemma pinv_add m x0 ks x e ns nd t :
+  mwf m -> pinv m x0 ks x -> In e (tedges m) ->
+  find_node m (esrc e) = Some ns -> find_node m (edst e) = Some nd ->
+  ~ In (shiftk e t) (map ekey (tedges x)) ->
+  add_edge x (relag ns (t - delta e)) (relag nd t) (ety e) (em e)
+    = Ok (added x (relag ns (t - delta e)) (relag nd t) (ety e) (em e))
+  /\ pinv m x0 (ks ++ [shiftk e t]) (added x (relag ns (t - delta e)) (relag nd t) (ety e) (em e)).
+Proof.
+  intros Hm [P1 P2 P3 P4 P5 P6] He Fs Fd Hnew.
+  destruct (try_add m x e ns nd t Hm P1 He Fs Fd Hnew) as (E & X' & Ks & Kd).
+  split; [exact E|]. constructor; simpl; auto.
+  - intros e' He'; apply in_app_iff in He'; simpl in He'.
+    destruct He' as [He'|[<-|[]]].
+    + destruct (P2 e' He'); [auto|right; apply in_or_app; auto].
+    + right; apply in_or_app; right; left. rewrite ekey_mk_edge, Ks, Kd; reflexivity.
+  - intros k Hk; rewrite map_app, in_app_iff; apply in_app_iff in Hk; simpl in Hk.
+    destruct Hk as [Hk|[<-|[]]]; [left; auto|right; simpl; left].
+    rewrite ekey_mk_edge, Ks, Kd; reflexivity.
+  - intros e' He'; apply in_or_app; auto.
+  - intros n' Hn'. apply ensure_node_in in Hn'. destruct Hn' as [Hn'|[-> _]].
+    + apply ensure_node_in in Hn'. destruct Hn' as [Hn'|[-> _]].
+      * destruct (P5 n' Hn') as [H|(e' & He' & H)]; [auto|right].
+        exists e'; split; [apply in_or_app; auto|exact H].
+      * right; eexists; split; [apply in_or_app; right; left; reflexivity|left; reflexivity].
+    + right; eexists; split; [apply in_or_app; right; left; reflexivity|right; reflexivity].
+  - intros n' Hn'; apply ensure_node_incl, ensure_node_incl, P6, Hn'.
+Qed.
+
+Lemma endpoint_nodes m e :
+  mwf m -> In e (tedges m) ->
+  exists ns nd, find_node m (esrc e) = Some ns /\ find_node m (edst e) = Some nd
+                /\ tv ns = es e /\ tl ns = esl e /\ tv nd = ed e /\ tl nd = edl e.
+Proof.
+  intros [W _] He; destruct (wf_ends m W e He) as [H1 H2].
+  destruct (find_node_in _ _ H1) as (ns & Fs); destruct (find_node_in _ _ H2) as (nd & Fd).
+  exists ns, nd; split; [exact Fs|]. split; [exact Fd|].
+  apply find_node_some in Fs, Fd; destruct Fs as [_ Ks], Fd as [_ Kd].
+  unfold nkey, esrc, edst in Ks, Kd; inversion Ks; inversion Kd; auto.
+Qed.
+
+(** ** Backward *)
+
+Definition wantb (bs : Z) (iap : bool) (p : Z * tedge) : list (key * key) :=
+  if ((- fst p - delta (snd p)) <? (- bs)) && negb iap then [] else [shiftk (snd p) (- fst p)].
+
+Lemma back_step_pinv m bs iap x0 ks x lag e :
+  mwf m -> In e (tedges m) -> pinv m x0 ks x ->
+  exists x', back_edge_step m bs iap lag x e = Ok x' /\ pinv m x0 (ks ++ wantb bs iap (lag, e)) x'.
+Proof.
+  intros Hm He HP. destruct (endpoint_nodes m e Hm He) as (ns & nd & Fs & Fd & T1 & T2 & T3 & T4).
+  unfold back_edge_step, wantb; rewrite Fs, Fd; simpl fst; simpl snd.
+  replace (tl nd - tl ns) with (delta e) by (unfold delta; lia).
+  destruct ((- lag - delta e <? - bs) && negb iap).
+  - exists x; rewrite app_nil_r; auto.
+  - assert (K : (nkey (relag ns (- lag - delta e)), nkey (relag nd (- lag))) = shiftk e (- lag)).
+    { unfold nkey, shiftk; simpl; rewrite T1, T3; reflexivity. }
+    destruct (edge_exists x (nkey (relag ns (- lag - delta e))) (nkey (relag nd (- lag)))) eqn:Ex; simpl.
+    + exists x; split; [reflexivity|]. apply pinv_skip; [exact HP|].
+      apply edge_exists_in in Ex; rewrite K in Ex; exact Ex.
+    + apply edge_exists_false in Ex; rewrite K in Ex.
+      destruct (pinv_add m x0 ks x e ns nd (- lag) Hm HP He Fs Fd Ex) as [E P']. eauto.
+Qed.
+
+Lemma back_edges_pinv m bs iap x0 :
+  mwf m -> xinv m x0 ->
+  exists x, back_edges m bs iap x0 = Ok x
+            /\ pinv m x0 (flat_map (wantb bs iap) (list_prod (zrange 1 bs) (sorted_edges m))) x.
+Proof.
+  intros Hm X0; unfold back_edges; rewrite rfold_nested.
+  pose (I := fun (done : list (Z * tedge)) (x : tsg) => pinv m x0 (flat_map (wantb bs iap) done) x).
+  destruct (rfold_total (fun x p => back_edge_step m bs iap (fst p) x (snd p))
+              (fun p => In (snd p) (tedges m)) I) with
+    (l := list_prod (zrange 1 bs) (sorted_edges m)) (done := @nil (Z * tedge)) (x := x0)
+    as (x & E & HI).
+  - intros done [lag e] x Qa HI; simpl in Qa |- *.
+    destruct (back_step_pinv m bs iap x0 _ x lag e Hm Qa HI) as (x' & E & P').
+    exists x'; split; [exact E|]. unfold I; rewrite flat_map_app; simpl; rewrite app_nil_r; exact P'.
+  - apply Forall_forall; intros [lag e] Hp; apply in_prod_iff in Hp; simpl.
+    destruct Hp as [_ H2]; apply isort_in in H2; exact H2.
+  - apply pinv_init; exact X0.
+  - exists x; auto.
+Qed.
+
+(** ** Forward *)
+
+Lemma fwd_add_eq x ls ld a b ty em :
+  let x2 := ensure_node (ensure_node x ls) ld in
+  find_node x2 (nkey ls) = Some a -> find_node x2 (nkey ld) = Some b -> tl ls <= tl ld ->
+  add_edge x2 a b ty em = add_edge x ls ld ty em.
+Proof.
+  intros x2 Fa Fb Hle. apply find_node_some in Fa, Fb. destruct Fa as [Ha Ka], Fb as [Hb Kb].
+  assert (Ta : tv a = tv ls /\ tl a = tl ls) by (unfold nkey in Ka; inversion Ka; auto).
+  assert (Tb : tv b = tv ld /\ tl b = tl ld) by (unfold nkey in Kb; inversion Kb; auto).
+  destruct Ta as [Ta1 Ta2], Tb as [Tb1 Tb2].
+  rewrite !add_edge_noswap by lia. rewrite Ka, Kb.
+  assert (X : forall s d, edge_exists x2 s d = edge_exists x s d).
+  { intros s d; unfold edge_exists, x2; rewrite !ensure_node_edges; reflexivity. }
+  rewrite !X.
+  destruct (key_eqb (nkey ls) (nkey ld)); [reflexivity|].
+  destruct (edge_exists x (nkey ls) (nkey ld)); [reflexivity|].
+  destruct (edge_exists x (nkey ld) (nkey ls)); [reflexivity|].
+  f_equal; unfold added.
+  assert (Na : ensure_node x2 a = x2).
+  { unfold ensure_node. replace (node_exists x2 (nkey a)) with true; [reflexivity|].
+    symmetry; apply node_exists_in, in_map, Ha. }
+  assert (Nb : ensure_node x2 b = x2).
+  { unfold ensure_node. replace (node_exists x2 (nkey b)) with true; [reflexivity|].
+    symmetry; apply node_exists_in, in_map, Hb. }
+  rewrite Na, Nb. unfold x2 at 2 3; rewrite !ensure_node_edges, !ensure_node_meta.
+  unfold mk_edge; rewrite Ta1, Ta2, Tb1, Tb2; reflexivity.
+Qed.
+
+Lemma fwd_step_pinv m x0 ks x lag e :
+  mwf m -> In e (tedges m) -> pinv m x0 ks x ->
+  ~ In (shiftk e lag) (map ekey (tedges x)) ->
+  exists x', fwd_edge_step m lag x e = Ok x' /\ pinv m x0 (ks ++ [shiftk e lag]) x'.
+Proof.
+  intros Hm He HP Hnew.
+  destruct (endpoint_nodes m e Hm He) as (ns & nd & Fs & Fd & T1 & T2 & T3 & T4).
+  destruct (mwf_delta m e Hm He) as [Dp Dl]. pose proof (proj2 Hm e He) as Z0.
+  unfold fwd_edge_step; rewrite Fs, Fd.
+  replace (tl ns + lag) with (lag - delta e) by lia. replace (tl nd + lag) with lag by lia.
+  set (ls := relag ns (lag - delta e)). set (ld := relag nd lag).
+  set (x2 := ensure_node (ensure_node x ls) ld).
+  assert (H1 : In (nkey ls) (map nkey (tnodes x2))).
+  { unfold x2; rewrite !ensure_node_keys; auto. }
+  assert (H2 : In (nkey ld) (map nkey (tnodes x2))).
+  { unfold x2; rewrite !ensure_node_keys; auto. }
+  destruct (find_node_in _ _ H1) as (a & Fa); destruct (find_node_in _ _ H2) as (b & Fb).
+  rewrite Fa, Fb. unfold x2 in Fa, Fb |- *.
+  rewrite (fwd_add_eq x ls ld a b (ety e) (em e) Fa Fb) by (simpl; lia).
+  destruct (pinv_add m x0 ks x e ns nd lag Hm HP He Fs Fd Hnew) as [E P']. eauto.
+Qed.
+
+Lemma shiftk_inj m e1 e2 t1 t2 :
+  mwf m -> In e1 (tedges m) -> In e2 (tedges m) -> shiftk e1 t1 = shiftk e2 t2 ->
+  t1 = t2 /\ e1 = e2.
+Proof.
+  intros Hm H1 H2 E; unfold shiftk in E.
+  assert (E4 : t1 = t2) by congruence. assert (E1 : es e1 = es e2) by congruence.
+  assert (E3 : ed e1 = ed e2) by congruence.
+  assert (E2 : t1 - delta e1 = t2 - delta e2) by congruence.
+  split; [exact E4|]. subst t2.
+  destruct (mwf_delta m e1 Hm H1) as [_ L1]; destruct (mwf_delta m e2 Hm H2) as [_ L2].
+  pose proof (proj2 Hm e1 H1) as Z1; pose proof (proj2 Hm e2 H2) as Z2.
+  apply (NoDup_map_inj ekey (tedges m)); auto; [apply (wf_edges m (proj1 Hm))|].
+  assert (esl e1 = esl e2) by lia. assert (edl e1 = edl e2) by lia.
+  unfold ekey, esrc, edst; congruence.
+Qed.
+
+Lemma fwd_edges_pinv m fs x0 :
+  mwf m -> xinv m x0 -> (forall e', In e' (tedges x0) -> edl e' <= 0) ->
+  exists x, fwd_edges m fs x0 = Ok x
+            /\ pinv m x0 (map (fun p => shiftk (snd p) (fst p))
+                              (list_prod (zrange 1 fs) (sorted_edges m))) x.
+Proof.
+  intros Hm X0 Hneg; unfold fwd_edges; rewrite rfold_nested.
+  pose (Q := fun p : Z * tedge => 1 <= fst p /\ In (snd p) (tedges m)).
+  pose (I := fun (done : list (Z * tedge)) (x : tsg) =>
+               Forall Q done /\ pinv m x0 (map (fun p => shiftk (snd p) (fst p)) done) x).
+  destruct (rfold_total_nd (fun x p => fwd_edge_step m (fst p) x (snd p)) Q I) with
+    (l := list_prod (zrange 1 fs) (sorted_edges m)) (done := @nil (Z * tedge)) (x := x0)
+    as (x & E & _ & HI).
+  - intros done [lag e] x [Q1 Q2] Hnd [HQ HI]; simpl in Q1, Q2 |- *.
+    assert (Hnew : ~ In (shiftk e lag) (map ekey (tedges x))).
+    { intros Hin; apply in_map_iff in Hin; destruct Hin as (e' & K & He').
+      destruct (pi_e1 _ _ _ _ HI e' He') as [H0|Hk].
+      - pose proof (Hneg e' H0). apply ekey_inv in K; destruct K as [_ K2].
+        unfold edst in K2; inversion K2; lia.
+      - rewrite K in Hk; apply in_map_iff in Hk; destruct Hk as ([lag' e2] & K' & Hp); simpl in K'.
+        rewrite Forall_forall in HQ; destruct (HQ _ Hp) as [_ Q2']; simpl in Q2'.
+        destruct (shiftk_inj m e2 e lag' lag Hm Q2' Q2 K') as [-> ->]. contradiction. }
+    destruct (fwd_step_pinv m x0 _ x lag e Hm Q2 HI Hnew) as (x' & E & P').
+    exists x'; split; [exact E|]. split.
+    + apply Forall_app; split; [exact HQ|constructor; [split; assumption|constructor]].
+    + rewrite map_app; exact P'.
+  - apply Forall_forall; intros [lag e] Hp; apply in_prod_iff in Hp; destruct Hp as [H1 H2].
+    apply zrange_in in H1; apply isort_in in H2; split; simpl; [lia|exact H2].
+  - simpl; apply NoDup_list_prod; [apply zrange_nodup|].
+    apply (NoDup_of_map _ _ ekey).
+    eapply Permutation_NoDup; [apply Permutation_map, isort_perm|].
+    apply (wf_edges m (proj1 Hm)).
+  - split; [constructor|apply pinv_init; exact X0].
+  - exists x; auto.
+Qed.
+
+(** * One direction of the extension, as a whole *)
+
+Record phase (m x0 x : tsg) (P : tedge -> Z -> Prop) (N : Z -> Prop) : Prop := {
+  ph_x : xinv m x;
+  ph_e1 : forall e', In e' (tedges x) ->
+      In e' (tedges x0) \/ exists e t, In e (tedges m) /\ P e t /\ ekey e' = shiftk e t;
+  ph_e2 : forall e t, In e (tedges m) -> P e t -> In (shiftk e t) (map ekey (tedges x));
+  ph_e0 : forall e', In e' (tedges x0) -> In e' (tedges x);
+  ph_n1 : forall n', In n' (tnodes x) ->
+      In n' (tnodes x0)
+      \/ (exists n, In n (tnodes m) /\ N (tl n') /\ tv n' = tv n)
+      \/ exists e', In e' (tedges x) /\ (nkey n' = esrc e' \/ nkey n' = edst e');
+  ph_n0 : forall n', In n' (tnodes x0) -> In n' (tnodes x);
+  ph_n2 : forall n k, In n (tnodes m) -> N k -> In (tv n, k) (map nkey (tnodes x))
+}.
+
+Lemma phase_id m x0 (P : tedge -> Z -> Prop) (N : Z -> Prop) :
+  xinv m x0 -> (forall e t, ~ P e t) -> (forall k, ~ N k) -> phase m x0 x0 P N.
+Proof.
+  intros X HP HN; constructor; auto.
+  - intros e t _ H; destruct (HP e t H).
+  - intros n k _ H; destruct (HN k H).
+Qed.
+
+Definition Pb (b : option Z) (iap : bool) (e : tedge) (t : Z) : Prop :=
+  exists bs, b = Some bs /\ - bs <= t <= -1 /\ (iap = true \/ - bs <= t - delta e).
+Definition Nb (b : option Z) (k : Z) : Prop := exists bs, b = Some bs /\ - bs <= k <= 0.
+Definition Pf (f : option Z) (e : tedge) (t : Z) : Prop := exists fs, f = Some fs /\ 1 <= t <= fs.
+Definition Nf (f : option Z) (k : Z) : Prop := exists fs, f = Some fs /\ 0 <= k <= fs.
+
+Definition lagged_all (m : tsg) (h : Z -> Z) (lags : list Z) : list tnode :=
+  flat_map (fun lag => map (fun n => relag n (h lag)) (sorted_nodes m)) lags.
+
+Lemma lagged_all_in m h lags n' :
+  In n' (lagged_all m h lags) <->
+  exists lag n, In lag lags /\ In n (tnodes m) /\ n' = relag n (h lag).
+Proof.
+  unfold lagged_all; rewrite in_flat_map; split.
+  - intros (lag & Hl & H); apply in_map_iff in H; destruct H as (n & <- & Hn).
+    apply isort_in in Hn; eauto.
+  - intros (lag & n & Hl & Hn & ->); exists lag; split; [exact Hl|].
+    apply in_map_iff; exists n; split; [reflexivity|apply isort_in; exact Hn].
+Qed.
+
+Lemma wantb_in bs iap lag e k :
+  In k (wantb bs iap (lag, e)) <->
+  k = shiftk e (- lag) /\ (iap = true \/ - bs <= - lag - delta e).
+Proof.
+  unfold wantb; simpl fst; simpl snd.
+  destruct (Z.ltb_spec (- lag - delta e) (- bs)) as [Hlt|Hge]; destruct iap; simpl.
+  - split; [intros [<-|[]]; auto|intros [-> _]; auto].
+  - split; [intros []|intros [_ [H0|H0]]; [discriminate|lia]].
+  - split; [intros [<-|[]]; auto|intros [-> _]; auto].
+  - split; [intros [<-|[]]; auto|intros [-> _]; auto].
+Qed.
+
+Lemma nodes_phase m x0 (h : Z -> Z) lags :
+  xinv m x0 ->
+  let x1 := ens_all x0 (lagged_all m h lags) in
+  xinv m x1 /\ tedges x1 = tedges x0
+  /\ (forall n', In n' (tnodes x1) -> In n' (tnodes x0) \/
+        exists lag n, In lag lags /\ In n (tnodes m) /\ n' = relag n (h lag))
+  /\ (forall n', In n' (tnodes x0) -> In n' (tnodes x1))
+  /\ (forall lag n, In lag lags -> In n (tnodes m) -> In (tv n, h lag) (map nkey (tnodes x1))).
+Proof.
+  intros X0 x1. destruct (ens_all_spec (lagged_all m h lags) x0) as (E1 & E2 & E3 & E4 & E5 & E6).
+  split; [|split; [exact E1|split; [|split; [exact E5|]]]].
+  - apply ens_all_xinv; [exact X0|]. intros n' Hn'; apply lagged_all_in in Hn'.
+    destruct Hn' as (lag & n & _ & Hn & ->); exists n; auto.
+  - intros n' Hn'; destruct (E4 n' Hn') as [H|H]; [auto|right; apply lagged_all_in; exact H].
+  - intros lag n Hl Hn. change (tv n, h lag) with (nkey (relag n (h lag))).
+    apply E6, lagged_all_in; eauto.
+Qed.
+
+Lemma back_phase m b iap x0 :
+  mwf m -> (forall n, In n (tnodes m) -> tl n <= 0) -> tnodes m <> [] ->
+  xinv m x0 -> neg_opt b = false ->
+  exists x, extend_back m b iap x0 = Ok x /\ phase m x0 x (Pb b iap) (Nb b).
+Proof.
+  intros Hm Hneg Hne X0 Hb; destruct b as [bs|]; simpl.
+  2:{ exists x0; split; [reflexivity|]. apply phase_id; [exact X0| |].
+      - intros e t (bs & [=] & _). - intros k (bs & [=] & _). }
+  simpl in Hb; apply Z.ltb_ge in Hb.
+  assert (ML : exists k0, max_backward_lag m = Some k0).
+  { unfold max_backward_lag. destruct (tnodes m) as [|n0 l] eqn:En; [contradiction|].
+    simpl. assert (L : (tl n0 <=? 0) = true) by (apply Z.leb_le, Hneg; try rewrite En; left; reflexivity).
+    rewrite L; eauto. }
+  destruct ML as (k0 & ->).
+  unfold back_nodes; rewrite (nodes_loop_eq m x0 Z.opp (zrange 0 bs)).
+  fold (lagged_all m Z.opp (zrange 0 bs)).
+  destruct (nodes_phase m x0 Z.opp (zrange 0 bs) X0) as (X1 & E1 & N1 & N0 & N2).
+  set (x1 := ens_all x0 (lagged_all m Z.opp (zrange 0 bs))) in *.
+  destruct (back_edges_pinv m bs iap x1 Hm X1) as (x & E & [P1 P2 P3 P4 P5 P6]).
+  exists x; split; [exact E|]. constructor; auto.
+  - intros e' He'; destruct (P2 e' He') as [H|H]; [left; rewrite <- E1; exact H|right].
+    apply in_flat_map in H; destruct H as ([lag e] & Hp & Hk).
+    apply in_prod_iff in Hp; destruct Hp as [Hl He]; apply zrange_in in Hl; apply isort_in in He.
+    apply wantb_in in Hk; destruct Hk as [Hk Hc].
+    exists e, (- lag); split; [exact He|]. split; [|exact Hk].
+    exists bs; split; [reflexivity|]. split; [lia|exact Hc].
+  - intros e t He (bs' & [= <-] & Ht & Hc). apply P3. apply in_flat_map.
+    exists (- t, e); split.
+    + apply in_prod_iff; split; [apply zrange_in; lia|apply isort_in; exact He].
+    + apply wantb_in; rewrite Z.opp_involutive; auto.
+  - intros e' He'; apply P4; rewrite E1; exact He'.
+  - intros n' Hn'; destruct (P5 n' Hn') as [H|H]; [|auto].
+    destruct (N1 n' H) as [H0|(lag & n & Hl & Hn & ->)]; [auto|].
+    right; left; exists n; split; [exact Hn|]. split; [|reflexivity].
+    apply zrange_in in Hl; exists bs; simpl; split; [reflexivity|lia].
+  - intros n k Hn (bs' & [= <-] & Hk).
+    specialize (N2 (- k) n); rewrite Z.opp_involutive in N2.
+    assert (K : In (tv n, k) (map nkey (tnodes x1))) by (apply N2; [apply zrange_in; lia|exact Hn]).
+    apply in_map_iff in K; destruct K as (n1 & K & H1); rewrite <- K; apply in_map, P6, H1.
+Qed.
+
+Lemma fwd_phase m f x0 :
+  mwf m -> xinv m x0 -> (forall e', In e' (tedges x0) -> edl e' <= 0) -> neg_opt f = false ->
+  exists x, extend_fwd m f x0 = Ok x /\ phase m x0 x (Pf f) (Nf f).
+Proof.
+  intros Hm X0 Hneg Hf; destruct f as [fs|]; simpl.
+  2:{ exists x0; split; [reflexivity|]. apply phase_id; [exact X0| |].
+      - intros e t (fs & [=] & _). - intros k (fs & [=] & _). }
+  simpl in Hf; apply Z.ltb_ge in Hf.
+  unfold fwd_nodes. rewrite (nodes_loop_eq m x0 (fun z => z) (zrange 0 fs)).
+  fold (lagged_all m (fun z => z) (zrange 0 fs)).
+  destruct (nodes_phase m x0 (fun z => z) (zrange 0 fs) X0) as (X1 & E1 & N1 & N0 & N2).
+  set (x1 := ens_all x0 (lagged_all m (fun z => z) (zrange 0 fs))) in *.
+  assert (Hneg1 : forall e', In e' (tedges x1) -> edl e' <= 0) by (rewrite E1; exact Hneg).
+  destruct (fwd_edges_pinv m fs x1 Hm X1 Hneg1) as (x & E & [P1 P2 P3 P4 P5 P6]).
+  exists x; split; [exact E|]. constructor; auto.
+  - intros e' He'; destruct (P2 e' He') as [H|H]; [left; rewrite <- E1; exact H|right].
+    apply in_map_iff in H; destruct H as ([lag e] & Hk & Hp); simpl in Hk.
+    apply in_prod_iff in Hp; destruct Hp as [Hl He]; apply zrange_in in Hl; apply isort_in in He.
+    exists e, lag; split; [exact He|]. split; [exists fs; auto|auto].
+  - intros e t He (fs' & [= <-] & Ht). apply P3. apply in_map_iff.
+    exists (t, e); split; [reflexivity|].
+    apply in_prod_iff; split; [apply zrange_in; lia|apply isort_in; exact He].
+  - intros e' He'; apply P4; rewrite E1; exact He'.
+  - intros n' Hn'; destruct (P5 n' Hn') as [H|H]; [|auto].
+    destruct (N1 n' H) as [H0|(lag & n & Hl & Hn & ->)]; [auto|].
+    right; left; exists n; split; [exact Hn|]. split; [|reflexivity].
+    apply zrange_in in Hl; exists fs; simpl; split; [reflexivity|lia].
+  - intros n k Hn (fs' & [= <-] & Hk).
+    assert (K : In (tv n, k) (map nkey (tnodes x1))) by (apply (N2 k n); [apply zrange_in; lia|exact Hn]).
+    apply in_map_iff in K; destruct K as (n1 & K & H1); rewrite <- K; apply in_map, P6, H1.
+Qed.
+
+(** * C15: the specification of [x = extend ... ] relative to the minimal graph [m]
+      (what [c15_check_m] decides) *)
+
+Record c15_spec (m : tsg) (b f : option Z) (iap : bool) (x : tsg) : Prop := {
+  (* every edge is a copy of a minimal edge (same variables, time difference, type, metadata)
+     that is kept: it ends at 0, or in [-b,-1] (with its source not before -b unless
+     include_all_parents), or in [1,f] *)
+  c15_es : forall e', In e' (tedges x) ->
+      (exists e, In e (tedges m) /\ is_copyP e e') /\ kept b f iap (esl e') (edl e') = true;
+  (* every kept copy is there *)
+  c15_ec : forall e t, In e (tedges m) -> In t (ends b f) ->
+      kept b f iap (t - delta e) t = true -> In (shiftk e t) (map ekey (tedges x));
+  c15_end : NoDup (map ekey (tedges x));
+  (* nodes: minimal nodes, window nodes of the minimal variables, endpoints of kept copies;
+     each carries the variable type and user metadata of a minimal node of its variable *)
+  c15_ns : forall n', In n' (tnodes x) ->
+      (In (nkey n') (map nkey (tnodes m))
+       \/ (In (tv n') (map tv (tnodes m)) /\ in_window b f (tl n') = true)
+       \/ exists e', In e' (tedges x) /\ (esrc e' = nkey n' \/ edst e' = nkey n'))
+      /\ exists n, In n (tnodes m) /\ n' = relag n (tl n');
+  c15_nc1 : forall n, In n (tnodes m) ->
+      In (nkey n) (map nkey (tnodes x))
+      /\ forall k, In k (windows b f) -> In (tv n, k) (map nkey (tnodes x));
+  c15_nc2 : forall e', In e' (tedges x) ->
+      In (esrc e') (map nkey (tnodes x)) /\ In (edst e') (map nkey (tnodes x));
+  c15_nnd : NoDup (map nkey (tnodes x));
+  c15_meta : tgmeta x = tgmeta m
+}.
+
+(** The part of [extend] after the argument check and the computation of the minimal graph. *)
+Definition extend_from (m : tsg) (b f : option Z) (iap : bool) : res tsg :=
+  if is_empty m then Ok m
+  else match extend_back m b iap (copy_g m) with
+       | Err e => Err e
+       | Ok x => extend_fwd m f x
+       end.
+
+Lemma extend_unfold g b f iap :
+  extend g b f iap =
+    if neg_opt b || neg_opt f then Err EAssert
+    else match minimal g with Err e => Err e | Ok m => extend_from m b f iap end.
+Proof. reflexivity. Qed.
+
+Lemma copy_g_xinv m : wf m -> xinv m (copy_g m).
+Proof.
+  intros [W1 W2 W3 W4 W5].
+  assert (Hn : forall n, In n (sorted_nodes m) <-> In n (tnodes m)) by (intros; apply isort_in).
+  assert (He : forall e, In e (sorted_edges m) <-> In e (tedges m)) by (intros; apply isort_in).
+  constructor; [constructor|..]; simpl.
+  - eapply Permutation_NoDup; [apply Permutation_map, isort_perm|exact W1].
+  - eapply Permutation_NoDup; [apply Permutation_map, isort_perm|exact W2].
+  - intros e1 e2 H1 H2; apply (W3 e1 e2); [apply He, H1|apply He, H2].
+  - intros e H; apply He in H; destruct (W4 e H) as [H1 H2]. split.
+    + apply in_map_iff in H1; destruct H1 as (n & K & Hn1); rewrite <- K; apply in_map, Hn, Hn1.
+    + apply in_map_iff in H2; destruct H2 as (n & K & Hn2); rewrite <- K; apply in_map, Hn, Hn2.
+  - intros e H; apply W5, He, H.
+  - intros e' H; apply He in H; exists e'; split; [exact H|]. unfold is_copyP; auto.
+  - intros n' H; apply Hn in H; exists n'; split; [exact H|]. symmetry; apply relag_same.
+  - reflexivity.
+Qed.
+
+Lemma kept_Pb b f iap e t : Pb b iap e t -> kept b f iap (t - delta e) t = true.
+Proof.
+  intros (bs & -> & Ht & Hc); unfold kept, in_back, src_ok.
+  apply orb_true_iff; left; apply orb_true_iff; right; apply andb_true_iff; split.
+  - apply andb_true_iff; split; apply Z.leb_le; lia.
+  - destruct Hc as [-> |Hc]; [reflexivity|]. apply orb_true_iff; right; apply Z.leb_le; lia.
+Qed.
+
+Lemma kept_Pf b f iap e t : Pf f e t -> kept b f iap (t - delta e) t = true.
+Proof.
+  intros (fs & -> & Ht); unfold kept, in_fwd.
+  apply orb_true_iff; right; apply andb_true_iff; split; apply Z.leb_le; lia.
+Qed.
+
+Lemma kept_cases b f iap e t :
+  kept b f iap (t - delta e) t = true -> t = 0 \/ Pb b iap e t \/ Pf f e t.
+Proof.
+  unfold kept; rewrite !orb_true_iff, andb_true_iff; intros [[H|[H1 H2]]|H].
+  - left; apply Z.eqb_eq; exact H.
+  - right; left; unfold in_back in H1; destruct b as [bs|]; [|discriminate].
+    apply andb_true_iff in H1; destruct H1 as [A B]; apply Z.leb_le in A, B.
+    exists bs; split; [reflexivity|]. split; [lia|].
+    unfold src_ok in H2; apply orb_true_iff in H2; destruct H2 as [H2|H2]; [auto|].
+    right; apply Z.leb_le; exact H2.
+  - right; right; unfold in_fwd in H; destruct f as [fs|]; [|discriminate].
+    apply andb_true_iff in H; destruct H as [A B]; apply Z.leb_le in A, B.
+    exists fs; split; [reflexivity|lia].
+Qed.
+
+Lemma in_window_N b f k : in_window b f k = true <-> Nb b k \/ Nf f k.
+Proof.
+  unfold in_window, Nb, Nf; rewrite orb_true_iff; split.
+  - intros [H|H].
+    + left; destruct b as [bs|]; [|discriminate]. apply andb_true_iff in H; destruct H as [A B].
+      apply Z.leb_le in A, B; exists bs; auto.
+    + right; destruct f as [fs|]; [|discriminate]. apply andb_true_iff in H; destruct H as [A B].
+      apply Z.leb_le in A, B; exists fs; auto.
+  - intros [(bs & -> & A)|(fs & -> & A)]; [left|right]; apply andb_true_iff; split;
+      apply Z.leb_le; lia.
+Qed.
+
+Lemma windows_N b f k : In k (windows b f) <-> Nb b k \/ Nf f k.
+Proof.
+  unfold windows, Nb, Nf; rewrite in_app_iff; split.
+  - intros [H|H].
+    + left; destruct b as [bs|]; [|destruct H]. apply zrange_in in H; exists bs; auto.
+    + right; destruct f as [fs|]; [|destruct H]. apply zrange_in in H; exists fs; auto.
+  - intros [(bs & -> & A)|(fs & -> & A)]; [left|right]; apply zrange_in; exact A.
+Qed.
+
+Lemma ekey_shiftk_copy m e e' t :
+  mwf m -> In e (tedges m) -> ekey e' = shiftk e t ->
+  esl e' = t - delta e /\ edl e' = t /\ es e' = es e /\ ed e' = ed e.
+Proof.
+  intros Hm He K; apply ekey_inv in K; destruct K as [K1 K2].
+  unfold esrc in K1; unfold edst in K2; inversion K1; inversion K2; auto.
+Qed.
+
+Theorem extend_from_spec m b f iap :
+  mwf m -> (forall n, In n (tnodes m) -> tl n <= 0) ->
+  neg_opt b = false -> neg_opt f = false -> is_empty m = false ->
+  exists x, extend_from m b f iap = Ok x /\ c15_spec m b f iap x /\ xinv m x.
+Proof.
+  intros Hm Hneg Hb Hf Hemp. pose proof Hm as [Wm Z0].
+  assert (Hne : tnodes m <> []).
+  { intros E; unfold is_empty in Hemp; rewrite E in Hemp.
+    destruct (tedges m) as [|e l] eqn:Ee; [discriminate|].
+    destruct (wf_ends m Wm e) as [H _]; [rewrite Ee; left; reflexivity|].
+    rewrite E in H; destruct H. }
+  unfold extend_from; rewrite Hemp.
+  pose proof (copy_g_xinv m Wm) as X0.
+  destruct (back_phase m b iap (copy_g m) Hm Hneg Hne X0 Hb) as (xb & Eb & [B1 B2 B3 B4 B5 B6 B7]).
+  rewrite Eb.
+  assert (He0 : forall e, In e (tedges (copy_g m)) <-> In e (tedges m)) by (intros; apply isort_in).
+  assert (Hn0 : forall n, In n (tnodes (copy_g m)) <-> In n (tnodes m)) by (intros; apply isort_in).
+  assert (Hnegb : forall e', In e' (tedges xb) -> edl e' <= 0).
+  { intros e' He'; destruct (B2 e' He') as [H|(e & t & He & (bs & _ & Ht & _) & K)].
+    - apply He0 in H; rewrite (Z0 e' H); lia.
+    - destruct (ekey_shiftk_copy m e e' t Hm He K) as (_ & -> & _); lia. }
+  destruct (fwd_phase m f xb Hm B1 Hnegb Hf) as (x & Ef & [F1 F2 F3 F4 F5 F6 F7]).
+  exists x; split; [exact Ef|]. split; [|exact F1].
+  pose proof (xi_wf m x F1) as Wx.
+  constructor.
+  - intros e' He'; split; [apply (xi_copy m x F1); exact He'|].
+    assert (Hk : forall e t, In e (tedges m) -> ekey e' = shiftk e t ->
+                             kept b f iap (t - delta e) t = true ->
+                             kept b f iap (esl e') (edl e') = true).
+    { intros e t He K Hk; destruct (ekey_shiftk_copy m e e' t Hm He K) as (-> & -> & _); exact Hk. }
+    destruct (F2 e' He') as [H|(e & t & He & HP & K)].
+    + destruct (B2 e' H) as [H0|(e & t & He & HP & K)].
+      * apply He0 in H0; unfold kept; rewrite (Z0 e' H0); reflexivity.
+      * apply (Hk e t He K), kept_Pb, HP.
+    + apply (Hk e t He K), kept_Pf, HP.
+  - intros e t He _ Hk; destruct (kept_cases b f iap e t Hk) as [-> |[HP|HP]].
+    + destruct (mwf_delta m e Hm He) as [_ Dl].
+      replace (shiftk e 0) with (ekey e).
+      * apply in_map, F4, B4, He0, He.
+      * unfold ekey, shiftk, esrc, edst; rewrite (Z0 e He); repeat f_equal; lia.
+    + pose proof (B3 e t He HP) as K; apply in_map_iff in K; destruct K as (e' & K & He').
+      rewrite <- K; apply in_map, F4, He'.
+    + apply F3; assumption.
+  - exact (wf_edges x Wx).
+  - intros n' Hn'; split; [|apply (xi_node m x F1); exact Hn'].
+    destruct (F5 n' Hn') as [H|[(n & Hn & HN & Tv)|(e' & He' & Hk)]].
+    + destruct (B5 n' H) as [H0|[(n & Hn & HN & Tv)|(e' & He' & Hk)]].
+      * left; apply in_map, Hn0, H0.
+      * right; left; split; [rewrite Tv; apply in_map, Hn|apply in_window_N; auto].
+      * right; right; exists e'; split; [apply F4, He'|destruct Hk; auto].
+    + right; left; split; [rewrite Tv; apply in_map, Hn|apply in_window_N; auto].
+    + right; right; exists e'; split; [exact He'|destruct Hk; auto].
+  - intros n Hn; split.
+    + apply in_map, F6, B6, Hn0, Hn.
+    + intros k Hk; apply windows_N in Hk; destruct Hk as [Hk|Hk].
+      * pose proof (B7 n k Hn Hk) as K; apply in_map_iff in K; destruct K as (n1 & K & H1).
+        rewrite <- K; apply in_map, F6, H1.
+      * apply F7; assumption.
+  - exact (wf_ends x Wx).
+  - exact (wf_nodes x Wx).
+  - rewrite (xi_meta m x F1); reflexivity.
+Qed.
+
+(** * The boolean oracle [c15_check_m] decides [c15_spec] *)
+
+Lemma is_copy_spec e e' : is_copy e e' = true <-> is_copyP e e'.
+Proof.
+  unfold is_copy, is_copyP.
+  rewrite !andb_true_iff, !name_eqb_eq, Z.eqb_eq, etype_eqb_eq, meta_eqb_eq; tauto.
+Qed.
+
+Theorem c15_check_m_spec m b f iap x : c15_check_m m b f iap x = true <-> c15_spec m b f iap x.
+Proof.
+  unfold c15_check_m, c15_edge_sound, c15_edge_complete, c15_node_sound, c15_node_complete.
+  rewrite !andb_true_iff, !forallb_forall, meta_eqb_eq.
+  rewrite (nodup_by_spec ekey_eqb ekey_eqb_spec), (nodup_by_spec key_eqb key_eqb_spec).
+  split.
+  - intros [[[[[[H1 H2] H3] H4] [H5 H6]] H7] H8]. constructor; auto.
+    + intros e' He'; specialize (H1 e' He'); apply andb_true_iff in H1; destruct H1 as [A B].
+      split; [|exact B]. apply existsb_exists in A; destruct A as (e & He & C).
+      exists e; split; [exact He|apply is_copy_spec; exact C].
+    + intros e t He Ht Hk; specialize (H2 e He); rewrite forallb_forall in H2.
+      specialize (H2 t Ht); rewrite Hk in H2; simpl in H2. apply edge_exists_in; exact H2.
+    + intros n' Hn'; specialize (H4 n' Hn'); apply andb_true_iff in H4; destruct H4 as [A B]. split.
+      * rewrite !orb_true_iff in A; destruct A as [[A|A]|A].
+        -- left; apply node_exists_in; exact A.
+        -- right; left; apply andb_true_iff in A; destruct A as [A1 A2].
+           split; [apply has_var_in; exact A1|exact A2].
+        -- right; right; apply existsb_exists in A; destruct A as (e' & He' & C).
+           exists e'; split; [exact He'|]. apply orb_true_iff in C; rewrite !key_eqb_eq in C; exact C.
+      * apply existsb_exists in B; destruct B as (n & Hn & C); apply tnode_eqb_eq in C; eauto.
+    + intros n Hn; specialize (H5 n Hn); apply andb_true_iff in H5; destruct H5 as [A B].
+      split; [apply node_exists_in; exact A|]. rewrite forallb_forall in B.
+      intros k Hk; apply node_exists_in, B, Hk.
+    + intros e' He'; specialize (H6 e' He'); apply andb_true_iff in H6.
+      rewrite !node_exists_in in H6; exact H6.
+  - intros [S1 S2 S3 S4 S5 S6 S7 S8]; repeat split; auto.
+    + intros e' He'; destruct (S1 e' He') as [(e & He & C) B]; apply andb_true_iff; split; [|exact B].
+      apply existsb_exists; exists e; split; [exact He|apply is_copy_spec; exact C].
+    + intros e He; apply forallb_forall; intros t Ht.
+      destruct (kept b f iap (t - delta e) t) eqn:Hk; [simpl|reflexivity].
+      apply edge_exists_in; apply (S2 e t He Ht Hk).
+    + intros n' Hn'; destruct (S4 n' Hn') as [A (n & Hn & C)]; apply andb_true_iff; split.
+      * rewrite !orb_true_iff; destruct A as [A|[[A1 A2]|(e' & He' & C')]].
+        -- left; left; apply node_exists_in; exact A.
+        -- left; right; apply andb_true_iff; split; [apply has_var_in; exact A1|exact A2].
+        -- right; apply existsb_exists; exists e'; split; [exact He'|].
+           apply orb_true_iff; rewrite !key_eqb_eq; exact C'.
+      * apply existsb_exists; exists n; split; [exact Hn|apply tnode_eqb_eq; exact C].
+    + intros n Hn; destruct (S5 n Hn) as [A B]; apply andb_true_iff; split.
+      * apply node_exists_in; exact A.
+      * apply forallb_forall; intros k Hk; apply node_exists_in, B, Hk.
+    + intros e' He'; apply andb_true_iff; rewrite !node_exists_in; apply S6, He'.
+Qed.
+
+(** * C15: the theorems about [extend] *)
+
+Lemma minimal_mwf g m :
+  consistent g -> minimal g = Ok m -> mwf m /\ (forall n, In n (tnodes m) -> tl n <= 0).
+Proof.
+  intros C E; destruct (minimal_c14 g m C E) as [S W]. destruct C as (Wg & _ & _).
+  split; [split; [exact W|intros e He; exact (c14_edl0 g m e S He)]|].
+  intros n' Hn'.
+  destruct (c14_ns g m S n' Hn') as [(e0 & H0 & [(n0 & _ & ->)|(n0 & _ & ->)])|(_ & n0 & _ & ->)];
+    simpl; try lia.
+  pose proof (wf_time g Wg e0 H0); unfold delta; lia.
+Qed.
+
+(** Negative steps: AssertionError, before anything else. *)
+Theorem extend_neg g b f iap : neg_opt b || neg_opt f = true -> extend g b f iap = Err EAssert.
+Proof. intros H; rewrite extend_unfold, H; reflexivity. Qed.
+
+(** extend_graph never fails on a consistent graph with b, f in {None, 0, 1, 2, ...}; an empty
+    minimal graph is returned as is; otherwise the result satisfies the C15 characterisation. *)
+Theorem extend_spec g m b f iap :
+  consistent g -> minimal g = Ok m -> neg_opt b = false -> neg_opt f = false ->
+  exists x, extend g b f iap = Ok x
+            /\ (if is_empty m then x = m else c15_spec m b f iap x /\ xinv m x).
+Proof.
+  intros C E Hb Hf; destruct (minimal_mwf g m C E) as [Hm Hneg].
+  rewrite extend_unfold, Hb, Hf, E; simpl.
+  destruct (is_empty m) eqn:Hemp.
+  - exists m; unfold extend_from; rewrite Hemp; auto.
+  - destruct (extend_from_spec m b f iap Hm Hneg Hb Hf Hemp) as (x & Ex & S); eauto.
+Qed.
+
+Theorem extend_ok g b f iap :
+  consistent g -> neg_opt b = false -> neg_opt f = false -> exists x, extend g b f iap = Ok x.
+Proof.
+  intros C Hb Hf; destruct (minimal_ok g C) as (m & E).
+  destruct (extend_spec g m b f iap C E Hb Hf) as (x & Ex & _); eauto.
+Qed.
+
+(** The edges of the result are exactly the kept copies: the minimal graph (t = 0) plus, for
+    every template and every t in [-b, -1] and [1, f], the copy ending at t — without
+    include_all_parents a copy at negative t whose source falls before -b is left out.
+    Each copy carries the type and metadata of its template. *)
+Theorem extend_edges g m b f iap x :
+  consistent g -> minimal g = Ok m -> is_empty m = false -> extend g b f iap = Ok x ->
+  (forall k, In k (map ekey (tedges x)) <->
+     exists e t, In e (tedges m) /\ k = shiftk e t /\ kept b f iap (t - delta e) t = true)
+  /\ NoDup (map ekey (tedges x))
+  /\ (forall e', In e' (tedges x) -> exists e, In e (tedges m) /\ is_copyP e e').
+Proof.
+  intros C E Hemp Ex.
+  destruct (neg_opt b || neg_opt f) eqn:Hn; [rewrite extend_neg in Ex; [discriminate|exact Hn]|].
+  apply orb_false_iff in Hn; destruct Hn as [Hb Hf].
+  destruct (extend_spec g m b f iap C E Hb Hf) as (x' & Ex' & S); rewrite Hemp in S.
+  assert (x' = x) by congruence; subst x'. destruct S as [[S1 S2 S3 _ _ _ _ _] _].
+  destruct (minimal_mwf g m C E) as [Hm _].
+  split; [|split; [exact S3|intros e' He'; apply S1; exact He']].
+  intros k; split.
+  - intros Hk; apply in_map_iff in Hk; destruct Hk as (e' & <- & He').
+    destruct (S1 e' He') as [(e & He & C1 & C2 & C3 & _) Hk]. exists e, (edl e').
+    split; [exact He|]. unfold delta in C3.
+    replace (edl e' - delta e) with (esl e') by (unfold delta; lia).
+    split; [|exact Hk]. unfold ekey, shiftk, esrc, edst. rewrite C1, C2.
+    repeat f_equal; unfold delta; lia.
+  - intros (e & t & He & -> & Hk). apply S2; auto.
+    destruct (kept_cases b f iap e t Hk) as [-> |[(bs & -> & Ht & _)|(fs & -> & Ht)]]; unfold ends.
+    + left; reflexivity.
+    + right; apply in_or_app; left; apply zrange_in; lia.
+    + right; apply in_or_app; right; apply zrange_in; lia.
+Qed.
+
+(** The nodes of the result: the minimal nodes, a node for every minimal variable at every lag
+    of the windows [-b, 0] and [0, f], the endpoints of the kept copies (sources that fall
+    before -b), and nothing else; each with the attributes of a minimal node of its variable. *)
+Theorem extend_nodes g m b f iap x :
+  consistent g -> minimal g = Ok m -> is_empty m = false -> extend g b f iap = Ok x ->
+  (forall k, In k (map nkey (tnodes x)) <->
+     In k (map nkey (tnodes m))
+     \/ (In (fst k) (map tv (tnodes m)) /\ in_window b f (snd k) = true)
+     \/ exists e', In e' (tedges x) /\ (esrc e' = k \/ edst e' = k))
+  /\ NoDup (map nkey (tnodes x))
+  /\ (forall n', In n' (tnodes x) -> exists n, In n (tnodes m) /\ n' = relag n (tl n')).
+Proof.
+  intros C E Hemp Ex.
+  destruct (neg_opt b || neg_opt f) eqn:Hn; [rewrite extend_neg in Ex; [discriminate|exact Hn]|].
+  apply orb_false_iff in Hn; destruct Hn as [Hb Hf].
+  destruct (extend_spec g m b f iap C E Hb Hf) as (x' & Ex' & S); rewrite Hemp in S.
+  assert (x' = x) by congruence; subst x'. destruct S as [[_ _ _ S4 S5 S6 S7 _] _].
+  split; [|split; [exact S7|intros n' Hn'; exact (proj2 (S4 n' Hn'))]].
+  intros k; split.
+  - intros Hk; apply in_map_iff in Hk; destruct Hk as (n' & <- & Hn'). exact (proj1 (S4 n' Hn')).
+  - intros [Hk|[[Hv Hw]|(e' & He' & [<-|<-])]].
+    + apply in_map_iff in Hk; destruct Hk as (n & <- & Hn); exact (proj1 (S5 n Hn)).
+    + apply in_map_iff in Hv; destruct Hv as (n & Tv & Hn).
+      destruct k as [v j]; simpl in *; rewrite <- Tv. apply (proj2 (S5 n Hn)).
+      apply windows_N, in_window_N; exact Hw.
+    + exact (proj1 (S6 e' He')).
+    + exact (proj2 (S6 e' He')).
+Qed.
+
+(** The model's extension passes its own oracle. *)
+Corollary extend_check g b f iap x :
+  consistent g -> extend g b f iap = Ok x -> c15_check g b f iap x = true.
+Proof.
+  intros C Ex.
+  destruct (neg_opt b || neg_opt f) eqn:Hn; [rewrite extend_neg in Ex; [discriminate|exact Hn]|].
+  apply orb_false_iff in Hn; destruct Hn as [Hb Hf].
+  destruct (minimal_ok g C) as (m & E).
+  destruct (extend_spec g m b f iap C E Hb Hf) as (x' & Ex' & S).
+  assert (x' = x) by congruence; subst x'. unfold c15_check; rewrite E.
+  destruct (is_empty m).
+  - subst x; apply same_graph_b_spec; unfold same_graph; repeat split; auto.
+  - apply c15_check_m_spec; tauto.
+Qed.
+
+(** * Examples (see [ex_g] in TSGraphProofs.v; values observed on the Python code) *)
+
+(** Python: ex_g.extend_graph(1, 1, include_all_parents=True): 15 nodes (the sources at lag 2
+    of the copies ending at -1 are added), 15 edges. *)
+Example ex_g_extend_1_1_all :
+  res_exact (extend ex_g (Some 1) (Some 1) true)
+    (Ok (Gr [(Nd [87]%N (-1)%Z VUnspec []); (Nd [88]%N (0)%Z VUnspec []); (Nd [88]%N (-1)%Z VUnspec []); (Nd [89]%N (0)%Z VUnspec []); (Nd [89]%N (-1)%Z VUnspec []); (Nd [90]%N (0)%Z VCont [([97]%N, JInt (1)%Z)]); (Nd [87]%N (0)%Z VUnspec []); (Nd [90]%N (-1)%Z VCont [([97]%N, JInt (1)%Z)]); (Nd [87]%N (-2)%Z VUnspec []); (Nd [88]%N (-2)%Z VUnspec []); (Nd [89]%N (-2)%Z VUnspec []); (Nd [87]%N (1)%Z VUnspec []); (Nd [88]%N (1)%Z VUnspec []); (Nd [89]%N (1)%Z VUnspec []); (Nd [90]%N (1)%Z VCont [([97]%N, JInt (1)%Z)])] [(Ed [87]%N (0)%Z [89]%N (1)%Z Dir []); (Ed [87]%N (-1)%Z [89]%N (0)%Z Dir []); (Ed [87]%N (-2)%Z [89]%N (-1)%Z Dir []); (Ed [88]%N (0)%Z [88]%N (1)%Z Dir []); (Ed [88]%N (0)%Z [89]%N (0)%Z Dir []); (Ed [88]%N (0)%Z [89]%N (1)%Z Dir []); (Ed [88]%N (1)%Z [89]%N (1)%Z Dir []); (Ed [88]%N (-1)%Z [88]%N (0)%Z Dir []); (Ed [88]%N (-1)%Z [89]%N (0)%Z Dir []); (Ed [88]%N (-1)%Z [89]%N (-1)%Z Dir []); (Ed [88]%N (-2)%Z [88]%N (-1)%Z Dir []); (Ed [88]%N (-2)%Z [89]%N (-1)%Z Dir []); (Ed [89]%N (0)%Z [88]%N (1)%Z Dir [([98]%N, JStr [117]%N)]); (Ed [89]%N (-1)%Z [88]%N (0)%Z Dir [([98]%N, JStr [117]%N)]); (Ed [89]%N (-2)%Z [88]%N (-1)%Z Dir [([98]%N, JStr [117]%N)])] [([103]%N, JInt (1)%Z)])) = true.
+Proof. vm_compute; reflexivity. Qed.
+
+(** Python: ex_g.extend_graph(1, None, include_all_parents=False): only X lag1 -> Y lag1 is added. *)
+Example ex_g_extend_1_none :
+  res_exact (extend ex_g (Some 1) None false)
+    (Ok (Gr [(Nd [87]%N (-1)%Z VUnspec []); (Nd [88]%N (0)%Z VUnspec []); (Nd [88]%N (-1)%Z VUnspec []); (Nd [89]%N (0)%Z VUnspec []); (Nd [89]%N (-1)%Z VUnspec []); (Nd [90]%N (0)%Z VCont [([97]%N, JInt (1)%Z)]); (Nd [87]%N (0)%Z VUnspec []); (Nd [90]%N (-1)%Z VCont [([97]%N, JInt (1)%Z)])] [(Ed [87]%N (-1)%Z [89]%N (0)%Z Dir []); (Ed [88]%N (0)%Z [89]%N (0)%Z Dir []); (Ed [88]%N (-1)%Z [88]%N (0)%Z Dir []); (Ed [88]%N (-1)%Z [89]%N (0)%Z Dir []); (Ed [88]%N (-1)%Z [89]%N (-1)%Z Dir []); (Ed [89]%N (-1)%Z [88]%N (0)%Z Dir [([98]%N, JStr [117]%N)])] [([103]%N, JInt (1)%Z)])) = true.
+Proof. vm_compute; reflexivity. Qed.
+
+Example ex_g_extend_neg : extend ex_g (Some (-1)) None true = Err EAssert.
+Proof. vm_compute; reflexivity. Qed.
+
+Example ex_empty_extend : extend (empty_tsg []) (Some 2) (Some 2) true = Ok (empty_tsg []).
+Proof. vm_compute; reflexivity. Qed.
+
+Example ex_g_c15_check :
+  match extend ex_g (Some 1) (Some 1) true, extend ex_g (Some 2) None false with
+  | Ok x1, Ok x2 => c15_check ex_g (Some 1) (Some 1) true x1 && c15_check ex_g (Some 2) None false x2
+  | _, _ => false
+  end = true.
+Proof. vm_compute; reflexivity. Qed.
+
+(** * Corollaries of the characterisation *)
+
+(** With the default include_all_parents = True, every node of a variable at a time of the
+    window has the same parents (and the same incoming edges of every type) up to a time shift:
+    the copy of a template ending at [t1] is present iff the copy ending at [t2] is. *)
+Definition in_range (b f : option Z) (t : Z) : bool := (t =? 0) || in_back b t || in_fwd f t.
+
+Corollary extend_same_parents g m b f x :
+  consistent g -> minimal g = Ok m -> is_empty m = false -> extend g b f true = Ok x ->
+  forall u v d t1 t2, in_range b f t1 = true -> in_range b f t2 = true ->
+    (In ((u, t1 - d), (v, t1)) (map ekey (tedges x)) <->
+     In ((u, t2 - d), (v, t2)) (map ekey (tedges x))).
+Proof.
+  intros C E Hemp Ex u v d.
+  destruct (extend_edges g m b f true x C E Hemp Ex) as (He & _ & _).
+  assert (K : forall sl t, kept b f true sl t = in_range b f t).
+  { intros sl t; unfold kept, in_range, src_ok; simpl; rewrite andb_true_r; reflexivity. }
+  assert (Hgo : forall t1 t2, in_range b f t2 = true ->
+            In ((u, t1 - d), (v, t1)) (map ekey (tedges x)) ->
+            In ((u, t2 - d), (v, t2)) (map ekey (tedges x))).
+  { intros t1 t2 R2 H1; apply He in H1; destruct H1 as (e & t & Hin & Ek & _).
+    unfold shiftk in Ek.
+    assert (es e = u /\ ed e = v /\ delta e = d) as (<- & <- & <-).
+    { assert (t1 = t) by congruence. subst t. repeat split; try congruence.
+      assert (t1 - d = t1 - delta e) by congruence. lia. }
+    apply He; exists e, t2; split; [exact Hin|]. split; [reflexivity|rewrite K; exact R2]. }
+  intros t1 t2 R1 R2; split; apply Hgo; assumption.
+Qed.
+
+(** A larger window gives a super-graph (same include_all_parents): every edge, with its type
+    and metadata, and every node key of the smaller extension is in the larger one. *)
+Definition opt_le (a b : option Z) : Prop :=
+  match a, b with
+  | None, _ => True
+  | Some x, Some y => x <= y
+  | Some _, None => False
+  end.
+
+Lemma kept_mono b f b' f' iap sl t :
+  opt_le b b' -> opt_le f f' -> kept b f iap sl t = true -> kept b' f' iap sl t = true.
+Proof.
+  unfold kept, in_back, src_ok, in_fwd; intros Lb Lf.
+  rewrite !orb_true_iff, !andb_true_iff. intros [[H|[H1 H2]]|H].
+  - auto.
+  - left; right. destruct b as [bs|]; [|discriminate]. destruct b' as [bs'|]; [|destruct Lb].
+    simpl in Lb. rewrite andb_true_iff, !Z.leb_le in H1. rewrite andb_true_iff, !Z.leb_le.
+    split; [lia|]. rewrite orb_true_iff in H2 |- *. destruct H2 as [H2|H2]; [auto|right].
+    rewrite Z.leb_le in H2 |- *; lia.
+  - right. destruct f as [fs|]; [|discriminate]. destruct f' as [fs'|]; [|destruct Lf].
+    simpl in Lf. rewrite andb_true_iff, !Z.leb_le in H. rewrite andb_true_iff, !Z.leb_le; lia.
+Qed.
+
+Lemma in_window_mono b f b' f' k :
+  opt_le b b' -> opt_le f f' -> in_window b f k = true -> in_window b' f' k = true.
+Proof.
+  unfold in_window; intros Lb Lf; rewrite !orb_true_iff. intros [H|H]; [left|right].
+  - destruct b as [bs|]; [|discriminate]. destruct b' as [bs'|]; [|destruct Lb].
+    simpl in Lb. rewrite andb_true_iff, !Z.leb_le in H |- *; lia.
+  - destruct f as [fs|]; [|discriminate]. destruct f' as [fs'|]; [|destruct Lf].
+    simpl in Lf. rewrite andb_true_iff, !Z.leb_le in H |- *; lia.
+Qed.
+
+Corollary extend_monotone g m b f b' f' iap x x' :
+  consistent g -> minimal g = Ok m -> is_empty m = false ->
+  opt_le b b' -> opt_le f f' ->
+  extend g b f iap = Ok x -> extend g b' f' iap = Ok x' ->
+  (forall e, In e (tedges x) ->
+     exists e', In e' (tedges x') /\ ekey e' = ekey e /\ ety e' = ety e /\ em e' = em e)
+  /\ (forall k, In k (map nkey (tnodes x)) -> In k (map nkey (tnodes x'))).
+Proof.
+  intros C E Hemp Lb Lf Ex Ex'.
+  destruct (extend_edges g m b f iap x C E Hemp Ex) as (He & _ & Hc).
+  destruct (extend_edges g m b' f' iap x' C E Hemp Ex') as (He' & _ & Hc').
+  destruct (extend_nodes g m b f iap x C E Hemp Ex) as (Hn & _ & _).
+  destruct (extend_nodes g m b' f' iap x' C E Hemp Ex') as (Hn' & _ & _).
+  destruct (minimal_mwf g m C E) as [Hm _].
+  assert (Hed : forall e, In e (tedges x) ->
+     exists e', In e' (tedges x') /\ ekey e' = ekey e /\ ety e' = ety e /\ em e' = em e).
+  { intros e1 H1. assert (K : In (ekey e1) (map ekey (tedges x'))).
+    { apply He'. assert (K1 : In (ekey e1) (map ekey (tedges x))) by (apply in_map, H1).
+      apply He in K1; destruct K1 as (e & t & Hin & Ek & Hk). exists e, t.
+      split; [exact Hin|]. split; [exact Ek|]. eapply kept_mono; eauto. }
+    apply in_map_iff in K; destruct K as (e' & K & H'). exists e'; split; [exact H'|].
+    split; [exact K|].
+    destruct (Hc e1 H1) as (ea & Ha & A1 & A2 & A3 & A4 & A5).
+    destruct (Hc' e' H') as (eb & Hb & B1 & B2 & B3 & B4 & B5).
+    assert (ea = eb); [|subst eb; split; congruence].
+    apply ekey_inv in K; destruct K as [K1 K2]. unfold esrc in K1; unfold edst in K2.
+    destruct (mwf_delta m ea Hm Ha) as [_ La]; destruct (mwf_delta m eb Hm Hb) as [_ Lb'].
+    pose proof (proj2 Hm ea Ha) as Za; pose proof (proj2 Hm eb Hb) as Zb.
+    apply (NoDup_map_inj ekey (tedges m)); auto; [apply (wf_edges m (proj1 Hm))|].
+    assert (es ea = es eb) by congruence. assert (ed ea = ed eb) by congruence.
+    assert (delta e' = delta e1).
+    { unfold delta. assert (esl e' = esl e1) by congruence. assert (edl e' = edl e1) by congruence. lia. }
+    assert (esl ea = esl eb) by lia. assert (edl ea = edl eb) by lia.
+    unfold ekey, esrc, edst; congruence. }
+  split; [exact Hed|].
+  intros k Hk; apply Hn in Hk; apply Hn'. destruct Hk as [Hk|[[Hv Hw]|(e1 & H1 & Hk)]].
+  - auto.
+  - right; left; split; [exact Hv|]. eapply in_window_mono; eauto.
+  - right; right. destruct (Hed e1 H1) as (e' & H' & K & _). exists e'; split; [exact H'|].
+    apply ekey_inv in K; destruct K as [K1 K2]. destruct Hk as [<-|<-]; auto.
+Qed.
+
+(** An acyclic minimal graph always extends to an acyclic graph: if the contemporaneous
+    directed edges of the minimal graph increase a rank [r] on variables, every directed edge of
+    the extension increases the pair (time, rank) lexicographically. *)
+Definition lex_lt (p q : Z * Z) : Prop := fst p < fst q \/ (fst p = fst q /\ snd p < snd q).
+
+Corollary extend_acyclic g m b f iap x (r : name -> Z) :
+  consistent g -> minimal g = Ok m -> extend g b f iap = Ok x ->
+  (forall e, In e (tedges m) -> ety e = Dir -> delta e = 0 -> r (es e) < r (ed e)) ->
+  forall e', In e' (tedges x) -> ety e' = Dir ->
+    lex_lt (esl e', r (es e')) (edl e', r (ed e')).
+Proof.
+  intros C E Ex Hr e' He' Ty.
+  destruct (neg_opt b || neg_opt f) eqn:Hn; [rewrite extend_neg in Ex; [discriminate|exact Hn]|].
+  apply orb_false_iff in Hn; destruct Hn as [Hb Hf].
+  destruct (minimal_mwf g m C E) as [Hm _].
+  destruct (extend_spec g m b f iap C E Hb Hf) as (x' & Ex' & S).
+  assert (x' = x) by congruence; subst x'.
+  assert (Hc : exists e, In e (tedges m) /\ is_copyP e e').
+  { destruct (is_empty m) eqn:Hemp; try rewrite Hemp in S; simpl in S.
+    - subst x; exists e'; unfold is_copyP; split; [exact He'|repeat split; reflexivity].
+    - destruct S as [S _]; exact (proj1 (c15_es _ _ _ _ _ S e' He')). }
+  destruct Hc as (e & He & C1 & C2 & C3 & C4 & _).
+  destruct (mwf_delta m e Hm He) as [Dp _]. unfold lex_lt; simpl.
+  destruct (Z.eq_dec (delta e) 0) as [D0|Dn].
+  - right; split; [unfold delta in *; lia|]. rewrite C1, C2; apply Hr; congruence.
+  - left; unfold delta in *; lia.
+Qed.
+
+(** [lex_lt] is a strict order, so a graph whose arcs all increase it has no directed cycle. *)
+Lemma lex_rank_acyclic (A : Type) (arcs : list (A * A)) (rk : A -> Z * Z) :
+  (forall a b, In (a, b) arcs -> lex_lt (rk a) (rk b)) ->
+  acyclic {| verts := []; arcs := arcs |}.
+Proof.
+  intros H v Hp.
+  assert (T : forall a b, path {| verts := []; arcs := arcs |} a b -> lex_lt (rk a) (rk b)).
+  { intros a b P; induction P as [a b Hab|a b c _ IH1 _ IH2]; [apply H; exact Hab|].
+    unfold lex_lt in *; lia. }
+  specialize (T v v Hp); unfold lex_lt in T; lia.
+Qed.
+
+Corollary extend_acyclic_digraph g m b f iap x (r : name -> Z) :
+  consistent g -> minimal g = Ok m -> extend g b f iap = Ok x ->
+  (forall e, In e (tedges m) -> ety e = Dir -> delta e = 0 -> r (es e) < r (ed e)) ->
+  acyclic {| verts := []; arcs := map ekey (filter (fun e => etype_eqb (ety e) Dir) (tedges x)) |}.
+Proof.
+  intros C E Ex Hr.
+  apply (lex_rank_acyclic key _ (fun k => (snd k, r (fst k)))).
+  intros a b0 Hab; apply in_map_iff in Hab; destruct Hab as (e' & K & He').
+  apply filter_In in He'; destruct He' as [He' Ty]; apply etype_eqb_eq in Ty.
+  apply ekey_inv in K; destruct K as [<- <-]; simpl.
+  apply (extend_acyclic g m b f iap x r C E Ex Hr e' He' Ty).
+Qed.
+
+(** * The minimal graph of the extension is the minimal graph of the input *)
+
+Lemma xinv_consistent m x : mwf m -> xinv m x -> consistent x.
+Proof.
+  intros Hm [Xw Xc _ _]. pose proof Hm as [Wm Z0]. split; [exact Xw|]. split.
+  - intros a1 a2 H1 H2 Es Ed Dl.
+    destruct (Xc a1 H1) as (e1 & I1 & A1 & A2 & A3 & A4 & _).
+    destruct (Xc a2 H2) as (e2 & I2 & B1 & B2 & B3 & B4 & _).
+    destruct (mwf_delta m e1 Hm I1) as [_ L1]; destruct (mwf_delta m e2 Hm I2) as [_ L2].
+    assert (e1 = e2); [|congruence].
+    apply (NoDup_map_inj ekey (tedges m)); auto; [apply (wf_edges m Wm)|].
+    assert (esl e1 = esl e2) by lia.
+    assert (edl e1 = edl e2) by (rewrite (Z0 e1 I1), (Z0 e2 I2); reflexivity).
+    unfold ekey, esrc, edst; congruence.
+  - intros a1 a2 H1 H2 Es Ed D1 D2.
+    destruct (Xc a1 H1) as (e1 & I1 & A1 & A2 & A3 & _).
+    destruct (Xc a2 H2) as (e2 & I2 & B1 & B2 & B3 & _).
+    destruct (mwf_delta m e1 Hm I1) as [_ L1]; destruct (mwf_delta m e2 Hm I2) as [_ L2].
+    pose proof (Z0 e1 I1); pose proof (Z0 e2 I2).
+    apply (wf_norev m Wm e1 e2 I1 I2); unfold esrc, edst; f_equal; try congruence; lia.
+Qed.
+
+(** A minimal graph is determined, as a set of node keys, by its own edges and variables. *)
+Lemma minimal_nodes_self g m :
+  consistent g -> minimal g = Ok m ->
+  forall k, In k (map nkey (tnodes m)) <->
+    (exists e, In e (tedges m) /\ (k = esrc e \/ k = edst e))
+    \/ (exists n, In n (tnodes m) /\ touches m (tv n) = false /\ k = (tv n, 0)).
+Proof.
+  intros C E k; destruct (minimal_c14 g m C E) as [S W].
+  assert (Tm : forall v, touches m v = true -> touches g v = true).
+  { intros v T; apply touches_spec in T; destruct T as (e' & He' & Hv).
+    destruct (c14_es g m S e' He') as (e0 & H0 & K1 & K2 & _).
+    unfold esrc, edst, place_src, place_dst in K1, K2; inversion K1; inversion K2.
+    apply touches_spec; exists e0; split; [exact H0|]. destruct Hv; [left|right]; congruence. }
+  assert (Endp : forall n' e0, In n' (tnodes m) -> In e0 (tedges g) ->
+            (nkey n' = place_src e0 \/ nkey n' = place_dst e0) ->
+            exists e, In e (tedges m) /\ (nkey n' = esrc e \/ nkey n' = edst e)).
+  { intros n' e0 _ H0 Hk. pose proof (c14_ec g m S e0 H0) as K; apply in_map_iff in K.
+    destruct K as (e & K & He); apply ekey_inv in K; destruct K as [K1 K2].
+    exists e; split; [exact He|]. destruct Hk as [Hk|Hk]; [left|right]; congruence. }
+  assert (Cases : forall n', In n' (tnodes m) ->
+            (exists e, In e (tedges m) /\ (nkey n' = esrc e \/ nkey n' = edst e))
+            \/ (touches g (tv n') = false /\ tl n' = 0)).
+  { intros n' Hn'.
+    destruct (c14_ns g m S n' Hn') as [(e0 & H0 & [(n0 & F0 & R)|(n0 & F0 & R)])|(T & n0 & _ & R)].
+    - left; apply (Endp n' e0 Hn' H0); left. apply find_node_some in F0; destruct F0 as [_ K].
+      subst n'; unfold nkey, esrc in *; unfold place_src; simpl; inversion K; reflexivity.
+    - left; apply (Endp n' e0 Hn' H0); right. apply find_node_some in F0; destruct F0 as [_ K].
+      subst n'; unfold nkey, edst in *; unfold place_dst; simpl; inversion K; reflexivity.
+    - right; split; [exact T|rewrite R; reflexivity]. }
+  split.
+  - intros Hk; apply in_map_iff in Hk; destruct Hk as (n' & <- & Hn').
+    destruct (Cases n' Hn') as [(e & He & Hk)|[T Z]]; [left; eauto|right].
+    exists n'; split; [exact Hn'|]. split; [|unfold nkey; rewrite Z; reflexivity].
+    destruct (touches m (tv n')) eqn:T'; [apply Tm in T'; congruence|reflexivity].
+  - intros [(e & He & [-> | ->])|(n & Hn & T & ->)].
+    + exact (proj1 (wf_ends m W e He)).
+    + exact (proj2 (wf_ends m W e He)).
+    + destruct (Cases n Hn) as [(e & He & Hk)|[_ Z]].
+      * exfalso. pose proof (proj1 (touches_false m (tv n)) T e He) as [N1 N2].
+        destruct Hk as [Hk|Hk]; unfold nkey, esrc, edst in Hk; inversion Hk; congruence.
+      * replace (tv n, 0) with (nkey n) by (unfold nkey; rewrite Z; reflexivity).
+        apply in_map, Hn.
+Qed.
+
+Theorem minimal_of_extend g m b f iap x :
+  consistent g -> minimal g = Ok m -> extend g b f iap = Ok x ->
+  exists mx, minimal x = Ok mx
+    /\ (forall k, In k (map ekey (tedges mx)) <-> In k (map ekey (tedges m)))
+    /\ (forall e1 e2, In e1 (tedges mx) -> In e2 (tedges m) -> ekey e1 = ekey e2 ->
+          ety e1 = ety e2 /\ em e1 = em e2)
+    /\ (forall k, In k (map nkey (tnodes mx)) <-> In k (map nkey (tnodes m))).
+Proof.
+  intros C E Ex.
+  destruct (neg_opt b || neg_opt f) eqn:Hn; [rewrite extend_neg in Ex; [discriminate|exact Hn]|].
+  apply orb_false_iff in Hn; destruct Hn as [Hb Hf].
+  destruct (minimal_mwf g m C E) as [Hm _]. pose proof Hm as [Wm Z0].
+  destruct (extend_spec g m b f iap C E Hb Hf) as (x' & Ex' & S).
+  assert (x' = x) by congruence; subst x'.
+  destruct (is_empty m) eqn:Hemp.
+  { subst x. destruct (minimal_idem g m C E) as (m' & E' & (Sn & Se & _) & _).
+    exists m'; split; [exact E'|]. split; [|split].
+    - intros k; split; intros Hk; apply in_map_iff in Hk; destruct Hk as (e & <- & He);
+        apply in_map, Se, He.
+    - intros e1 e2 H1 H2 K. apply Se in H1.
+      assert (e1 = e2) by (apply (NoDup_map_inj ekey (tedges m)); auto; apply (wf_edges m Wm)).
+      subst e2; auto.
+    - intros k; split; intros Hk; apply in_map_iff in Hk; destruct Hk as (n & <- & Hn);
+        apply in_map, Sn, Hn. }
+  destruct S as [S X]. pose proof (xinv_consistent m x Hm X) as Cx.
+  destruct (minimal_ok x Cx) as (mx & Emx). exists mx; split; [exact Emx|].
+  destruct (minimal_c14 x mx Cx Emx) as [Sx Wmx].
+  (* an edge of x and the minimal edge it copies have the same placed key *)
+  assert (PK : forall e' e, In e (tedges m) -> is_copyP e e' ->
+                 place_src e' = esrc e /\ place_dst e' = edst e).
+  { intros e' e He (C1 & C2 & C3 & _). destruct (mwf_delta m e Hm He) as [_ L].
+    unfold place_src, place_dst, esrc, edst; rewrite C1, C2, C3, (Z0 e He), L; auto. }
+  (* every minimal edge is in x *)
+  assert (MX : forall e, In e (tedges m) -> exists e', In e' (tedges x) /\ ekey e' = ekey e).
+  { intros e He. assert (K : In (shiftk e 0) (map ekey (tedges x))).
+    { apply (c15_ec _ _ _ _ _ S e 0 He); [left; reflexivity|reflexivity]. }
+    apply in_map_iff in K; destruct K as (e' & K & He'); exists e'; split; [exact He'|].
+    rewrite K. destruct (mwf_delta m e Hm He) as [_ L].
+    unfold shiftk, ekey, esrc, edst; rewrite (Z0 e He), L; repeat f_equal; lia. }
+  assert (EK : forall k, In k (map ekey (tedges mx)) <-> In k (map ekey (tedges m))).
+  { intros k; split.
+    - intros Hk; apply in_map_iff in Hk; destruct Hk as (e1 & <- & H1).
+      destruct (c14_es x mx Sx e1 H1) as (e' & He' & K1 & K2 & _).
+      destruct (xi_copy m x X e' He') as (e & He & Cp). destruct (PK e' e He Cp) as [P1 P2].
+      replace (ekey e1) with (ekey e) by (unfold ekey; congruence). apply in_map, He.
+    - intros Hk; apply in_map_iff in Hk; destruct Hk as (e & <- & He).
+      destruct (MX e He) as (e' & He' & K).
+      destruct (xi_copy m x X e' He') as (e2 & He2 & Cp). destruct (PK e' e2 He2 Cp) as [P1 P2].
+      pose proof (c14_ec x mx Sx e' He') as Q.
+      assert (e2 = e).
+      { apply (NoDup_map_inj ekey (tedges m)); auto; [apply (wf_edges m Wm)|].
+        destruct Cp as (C1 & C2 & C3 & _). apply ekey_inv in K; destruct K as [K1 K2].
+        unfold esrc in K1; unfold edst in K2.
+        destruct (mwf_delta m e2 Hm He2) as [_ L2]; destruct (mwf_delta m e Hm He) as [_ L].
+        assert (delta e' = delta e).
+        { unfold delta. assert (esl e' = esl e) by congruence. assert (edl e' = edl e) by congruence. lia. }
+        assert (esl e2 = esl e) by lia.
+        assert (edl e2 = edl e) by (rewrite (Z0 e2 He2), (Z0 e He); reflexivity).
+        unfold ekey, esrc, edst; congruence. }
+      subst e2. rewrite P1, P2 in Q; exact Q. }
+  split; [exact EK|]. split.
+  - intros e1 e2 H1 H2 K.
+    destruct (c14_es x mx Sx e1 H1) as (e' & He' & K1 & K2 & Ty & Em).
+    destruct (xi_copy m x X e' He') as (e & He & Cp). destruct (PK e' e He Cp) as [P1 P2].
+    assert (e = e2).
+    { apply (NoDup_map_inj ekey (tedges m)); auto; [apply (wf_edges m Wm)|].
+      rewrite <- K; unfold ekey; congruence. }
+    subst e2. destruct Cp as (_ & _ & _ & C4 & C5). split; congruence.
+  - intros k. rewrite (minimal_nodes_self g m C E k), (minimal_nodes_self x mx Cx Emx k).
+    assert (TX : forall v, touches x v = touches m v).
+    { intros v. destruct (touches m v) eqn:T.
+      - apply touches_spec in T; destruct T as (e & He & Hv). destruct (MX e He) as (e' & He' & K).
+        apply ekey_inv in K; destruct K as [K1 K2]. unfold esrc in K1; unfold edst in K2.
+        apply touches_spec; exists e'; split; [exact He'|]. destruct Hv; [left|right]; congruence.
+      - apply touches_false; intros e' He'.
+        destruct (xi_copy m x X e' He') as (e & He & C1 & C2 & _).
+        pose proof (proj1 (touches_false m v) T e He) as [N1 N2]. split; congruence. }
+    assert (TMX : forall v, touches mx v = touches m v).
+    { intros v. destruct (touches m v) eqn:T.
+      - apply touches_spec in T; destruct T as (e & He & Hv).
+        assert (K : In (ekey e) (map ekey (tedges mx))) by (apply EK, in_map, He).
+        apply in_map_iff in K; destruct K as (e1 & K & H1). apply ekey_inv in K; destruct K as [K1 K2].
+        unfold esrc in K1; unfold edst in K2.
+        apply touches_spec; exists e1; split; [exact H1|]. destruct Hv; [left|right]; congruence.
+      - apply touches_false; intros e1 H1.
+        assert (K : In (ekey e1) (map ekey (tedges m))) by (apply EK, in_map, H1).
+        apply in_map_iff in K; destruct K as (e & K & He). apply ekey_inv in K; destruct K as [K1 K2].
+        unfold esrc in K1; unfold edst in K2.
+        pose proof (proj1 (touches_false m v) T e He) as [N1 N2]. split; congruence. }
+    assert (VX : forall v, In v (map tv (tnodes mx)) <-> In v (map tv (tnodes m))).
+    { intros v; split; intros Hv; apply in_map_iff in Hv; destruct Hv as (n & <- & Hn).
+      - (* a node of mx comes from a node of x, which comes from a node of m *)
+        assert (Vx : In (tv n) (map tv (tnodes x))).
+        { destruct (c14_ns x mx Sx n Hn) as [(e0 & H0 & [(n0 & F0 & ->)|(n0 & F0 & ->)])|(_ & n0 & F0 & ->)];
+            simpl.
+          - apply find_node_some in F0; apply in_map; tauto.
+          - apply find_node_some in F0; apply in_map; tauto.
+          - apply first_of_var_some in F0; apply in_map; tauto. }
+        apply in_map_iff in Vx; destruct Vx as (n' & Tv & Hn').
+        destruct (xi_node m x X n' Hn') as (n1 & Hn1 & R). rewrite <- Tv, R; simpl.
+        apply in_map, Hn1.
+      - pose proof (proj1 (c15_nc1 _ _ _ _ _ S n Hn)) as K.
+        apply in_map_iff in K; destruct K as (n' & K & Hn').
+        assert (Tv : tv n' = tv n) by (unfold nkey in K; inversion K; reflexivity).
+        rewrite <- Tv.
+        destruct (touches x (tv n')) eqn:T.
+        + apply touches_spec in T; destruct T as (e' & He' & Hv).
+          destruct (c14_nc1 x mx Sx e' He') as [Q1 Q2]. apply in_map_iff in Q1, Q2.
+          destruct Q1 as (n1 & Q1 & H1), Q2 as (n2 & Q2 & H2).
+          unfold nkey, place_src, place_dst in Q1, Q2; inversion Q1; inversion Q2.
+          destruct Hv as [Hv|Hv]; rewrite <- Hv; apply in_map_iff; eauto.
+        + pose proof (c14_nc2 x mx Sx n' Hn' T) as Q. apply in_map_iff in Q.
+          destruct Q as (n1 & Q & H1). unfold nkey in Q; inversion Q.
+          apply in_map_iff; eauto. }
+    split.
+    + intros [(e1 & H1 & Hk)|(n1 & H1 & T & ->)].
+      * left. assert (K : In (ekey e1) (map ekey (tedges m))) by (apply EK, in_map, H1).
+        apply in_map_iff in K; destruct K as (e & K & He). apply ekey_inv in K; destruct K as [K1 K2].
+        exists e; split; [exact He|]. destruct Hk as [-> | ->]; auto.
+      * right. assert (Hv : In (tv n1) (map tv (tnodes m))) by (apply VX, in_map, H1).
+        apply in_map_iff in Hv; destruct Hv as (n & Tv & Hn). exists n.
+        split; [exact Hn|]. rewrite Tv, <- TMX. auto.
+    + intros [(e & He & Hk)|(n & Hn & T & ->)].
+      * left. assert (K : In (ekey e) (map ekey (tedges mx))) by (apply EK, in_map, He).
+        apply in_map_iff in K; destruct K as (e1 & K & H1). apply ekey_inv in K; destruct K as [K1 K2].
+        exists e1; split; [exact H1|]. destruct Hk as [-> | ->]; auto.
+      * right. assert (Hv : In (tv n) (map tv (tnodes mx))) by (apply VX, in_map, Hn).
+        apply in_map_iff in Hv; destruct Hv as (n1 & Tv & H1). exists n1.
+        split; [exact H1|]. rewrite Tv, TMX. auto.
+Qed.
